@@ -99,6 +99,8 @@ def finish(prop, tier, seed, t0, ctx, explanation, rule_texts, min_counts, trust
     Returns exit code."""
     for r, m in min_counts.items():
         c = ctx.count(r)
+        if any(i.verdict == "violated" and i.rule == ctx.rid(r) for i in ctx.insts):
+            continue   # a violated instance may legitimately cut the rule's remaining instances short
         if c < m:
             raise AnalysisError(f"rule {prop}.{r} matched {c} instance(s), fewer than the {m} confirmed by hand - "
                                 f"the rule would pass vacuously")
